@@ -97,3 +97,100 @@ Proof.
   destruct (parse_request c x n (whole (u_abs p))) as [[r2 q]|e] eqn:E; cbn [canon_req] in Hi; [|discriminate].
   injection Hi as -> ->. eapply accepted_head_is_strict; eassumption.
 Qed.
+
+(* ---- the same with the PROXY protocol switched on: the first request of a connection may be preceded by one PROXY line ---- *)
+Definition safe_cfg_px (c : cfg) : Prop :=
+  casefold_http_method c = false /\ permit_obsolete_folding c = false /\ strip_header_spaces c = false.
+
+Lemma read_line_any lim d p l rb p' : read_line lim d p = inl (l, rb, p') ->
+  exists i, find_pat CRLF (d ++ concat p) = Some i /\ l = firstn i (d ++ concat p) /\ rb ++ concat p' = skipn (i + 2) (d ++ concat p).
+Proof.
+  intros H. pose proof (read_line_cut lim d p) as Hc. rewrite H in Hc. cbn [canon3] in Hc.
+  rewrite (scan_canon (find_pat CRLF) (rl_over lim) 2 2 (rl_post lim) (find_pat_stable CRLF) crlf_late crlf_bound (rl_over_mono lim) (rl_early lim)) in Hc.
+  destruct (abs_cut _ _ 2 _ (d ++ concat p)) as [i pre r| |] eqn:Ec; cbn [rl_of_cut] in Hc; try discriminate.
+  apply abs_cut_found in Ec as (Hf & -> & ->). injection Hc as -> ->.
+  exists i. rewrite firstn_firstn. replace (Nat.min i (i + 2)) with i by lia. auto.
+Qed.
+
+(* from the request line on: what the three remaining stages accept is a strict head of the text they were given *)
+Lemma head_from_line : forall c x s i r1 p1 m uri ver hs https p4 fr mc pinfo,
+    safe_cfg_px c -> s <> [] ->
+    find_pat CRLF s = Some i -> r1 ++ concat p1 = skipn (i + 2) s ->
+    parse_request_line c x (firstn i s) = inl (m, uri, ver) ->
+    header_stage c r1 p1 = inl (hs, https, p4) -> set_body_reader hs ver = inl (fr, mc) ->
+    strict_head c s {| r_method := m; r_uri := uri; r_version := ver; r_headers := hs; r_https := https;
+                       r_proxy := pinfo; r_framing := fr; r_must_close := mc |} (u_abs p4).
+Proof.
+  intros c x s i r1 p1 m uri ver hs https p4 fr mc pinfo (Hcf & Hfold & Hstrip) Hne Hf Hr1 E2 E3 E4.
+  cbn [r_method r_uri r_version r_headers r_framing].
+  pose proof (crlf_bound _ _ Hf) as Hb.
+  assert (Hs : s = firstn i s ++ CRLF ++ skipn (i + 2) s) by (apply (find_pat_split CRLF); exact Hf).
+  exists (firstn i s). split; [rewrite firstn_length; replace (Nat.min i (length s)) with i by lia; exact Hf|].
+  split; [eapply request_line_strict; eassumption|]. split; [eapply framing_sound; exact E4|].
+  pose proof (header_stage_whole _ _ _ _ _ _ E3) as Hh. cbv zeta in Hh. rewrite Hr1 in Hh.
+  destruct Hh as [[Ht ->]|(j & Hd & Hp & Ha & h & Eph)].
+  - left. split; [|reflexivity]. rewrite Hs at 1. rewrite Ht. reflexivity.
+  - right. exists (firstn j (skipn (i + 2) s)).
+    pose proof (find_pat_bound _ _ _ Hp) as Hbj. cbn [length CRLFCRLF] in Hbj.
+    assert (Hsplit : skipn (i + 2) s = firstn j (skipn (i + 2) s) ++ CRLFCRLF ++ u_abs p4).
+    { rewrite Ha. apply (find_pat_split CRLFCRLF). exact Hp. }
+    split; [rewrite Hs at 1; rewrite Hsplit at 1; reflexivity|]. split.
+    + rewrite <- Hsplit. rewrite firstn_length. replace (Nat.min j (length (skipn (i + 2) s))) with j by lia. exact Hp.
+    + split; [unfold parse_headers in Eph; eapply accepted_field_lines_strict; eassumption|].
+      eapply parse_headers_are_the_lines; eassumption.
+Qed.
+
+(* an accepted request with the PROXY protocol on: either no PROXY line was taken and the head is a strict head of the
+   stream, or the stream is one PROXY line (first request only, allowed peer only, well-formed addresses and ports) + CRLF +
+   a stream of which the head is a strict head - and the declared addresses are exactly those of that line *)
+Theorem accepted_head_is_strict_px : forall c x n s r p',
+    safe_cfg_px c -> parse_request c x n (whole s) = inl (r, p') ->
+    (r_proxy r = None /\ strict_head c s r (u_abs p'))
+    \/ (exists pline s' info,
+           proxy_protocol c = true /\ n = 1 /\ proxy_trusted c = true /\
+           s = pline ++ CRLF ++ s' /\ find_pat CRLF s = Some (length pline) /\ prefixb s_PROXY pline = true /\
+           parse_proxy_protocol x pline = inl info /\ r_proxy r = Some info /\ strict_head c s' r (u_abs p')).
+Proof.
+  intros c x n s r p' Hsafe H.
+  rewrite parse_request_from in H. destruct s as [|b s0]; [discriminate|]. cbn [whole] in H.
+  set (s := b :: s0) in *. unfold parse_from in H.
+  destruct (read_line (eff_line c) s []) as [[[l1 r1] p1]|e] eqn:E1; [|discriminate].
+  destruct (read_line_any _ _ _ _ _ _ E1) as (i & Hf & -> & Hr1). cbn [concat] in Hf, Hr1. rewrite app_nil_r in Hf, Hr1.
+  rewrite app_nil_r in H.
+  unfold proxy_stage in H.
+  destruct (proxy_protocol c && (n =? 1) && prefixb s_PROXY (firstn i s)) eqn:Epx.
+  - (* a PROXY line was taken *)
+    apply andb_prop in Epx as [Epx Hpre]. apply andb_prop in Epx as [Hon Hn1]. apply N.eqb_eq in Hn1.
+    destruct (negb (proxy_trusted c)) eqn:Etr; [discriminate|]. apply negb_false_iff in Etr.
+    destruct (parse_proxy_protocol x (firstn i s)) as [info|e] eqn:Epp; [|discriminate].
+    destruct (read_line (eff_line c) r1 p1) as [[[l2 r2] p2]|e] eqn:E1'; [|discriminate].
+    destruct (read_line_any _ _ _ _ _ _ E1') as (i2 & Hf2 & -> & Hr2). rewrite Hr1 in Hf2, Hr2, H.
+    destruct (parse_request_line c x (firstn i2 (skipn (i + 2) s))) as [[[m uri] ver]|e] eqn:E2; [|discriminate].
+    destruct (header_stage c r2 p2) as [[[hs https] p4]|e] eqn:E3; [|discriminate].
+    destruct (set_body_reader hs ver) as [[fr mc]|e] eqn:E4; [|discriminate].
+    injection H as <- <-. right.
+    pose proof (crlf_bound _ _ Hf) as Hb.
+    exists (firstn i s), (skipn (i + 2) s), info. cbn [r_proxy].
+    rewrite firstn_length. replace (Nat.min i (length s)) with i by lia.
+    repeat split; try assumption; [apply (find_pat_split CRLF); exact Hf|].
+    eapply head_from_line; try eassumption.
+    intros Hnil. rewrite Hnil in Hf2. cbn in Hf2. discriminate.
+  - destruct (parse_request_line c x (firstn i s)) as [[[m uri] ver]|e] eqn:E2; [|discriminate].
+    destruct (header_stage c r1 p1) as [[[hs https] p4]|e] eqn:E3; [|discriminate].
+    destruct (set_body_reader hs ver) as [[fr mc]|e] eqn:E4; [|discriminate].
+    injection H as <- <-. left. split; [reflexivity|].
+    eapply head_from_line; try eassumption. discriminate.
+Qed.
+
+Corollary accepted_head_is_strict_px_any_segmentation : forall c x n p r p',
+    NE p -> safe_cfg_px c -> parse_request c x n p = inl (r, p') ->
+    (r_proxy r = None /\ strict_head c (u_abs p) r (u_abs p'))
+    \/ (exists pline s' info,
+           proxy_protocol c = true /\ n = 1 /\ proxy_trusted c = true /\
+           u_abs p = pline ++ CRLF ++ s' /\ find_pat CRLF (u_abs p) = Some (length pline) /\ prefixb s_PROXY pline = true /\
+           parse_proxy_protocol x pline = inl info /\ r_proxy r = Some info /\ strict_head c s' r (u_abs p')).
+Proof.
+  intros c x n p r p' Hne Hsafe H. pose proof (parse_request_indep c x n p Hne) as Hi. rewrite H in Hi. cbn [canon_req] in Hi.
+  destruct (parse_request c x n (whole (u_abs p))) as [[r2 q]|e] eqn:E; cbn [canon_req] in Hi; [|discriminate].
+  injection Hi as -> ->. eapply accepted_head_is_strict_px; eassumption.
+Qed.
